@@ -118,8 +118,28 @@ def check_request_contract(case, pairs_shape, get_bounds_key):
         ensures = dict(
             advertised_power_accepted="implies(advertised_admits(pairs_data, request.power.as_watts()), result is None)",
             zero_always_accepted="implies(abs(request.power.as_watts()) <= 1e-9, result is None)",
+            # C02 (admission side): no non-zero power strictly inside the enforced exclusion zone reaches the
+            # distribution, with or without adjust_power; without it, nothing outside the inclusion bounds either
+            inside_exclusion_zone_rejected="implies(abs(request.power.as_watts()) > 1e-9"
+                                           " and enf_excl_lower(pairs_data) < request.power.as_watts()"
+                                           " and request.power.as_watts() < enf_excl_upper(pairs_data), result is not None)",
+            outside_inclusion_rejected_unless_adjusting="implies(not request.adjust_power and abs(request.power.as_watts()) > 1e-9"
+                                                        " and (request.power.as_watts() < adv_incl_lower(pairs_data)"
+                                                        " or request.power.as_watts() > adv_incl_upper(pairs_data)),"
+                                                        " result is not None)",
         )
     return _C
+
+
+def enf_excl_lower(pairs):
+    """The exclusion bound the manager enforces (closed form proved for _get_bounds)."""
+    return min(sum(b.power_bounds.exclusion_lower for b, _ in pairs),
+               sum(i.active_power_exclusion_lower_bound for _, invs in pairs for i in invs))
+
+
+def enf_excl_upper(pairs):
+    return max(sum(b.power_bounds.exclusion_upper for b, _ in pairs),
+               sum(i.active_power_exclusion_upper_bound for _, invs in pairs for i in invs))
 
 
 CheckRequest1 = check_request_contract("one_group", PAIRS_1, f"{BM}._get_bounds#one_group")
